@@ -70,7 +70,13 @@ def cases(tier, seed):
         if sp["weather"]["kind"] == "file":
             sp["pad_before"] = min(sp["pad_before"], 3)
             sp["pad_after"] = min(sp["pad_after"], 3)
-        out.append({"spec": sp})
+        c = {"spec": sp}
+        if i % 4 == 1 and sp["weather"]["kind"] == "synth":
+            c["later"] = int(gen.pick(rng, [1, 2]))
+            sp["pad_after"] = 366 * c["later"] + 5
+            if i % 8 == 1:
+                sp["co2"] = {"constant_auto": True}      # "constant at the level of the first simulated year"
+        out.append(c)
     return out
 
 
@@ -196,5 +202,53 @@ def run_case(case):
                     f"changed since before the first run: {changed[:8]}",
                     dict(generation=label, where=where, changed=changed[:20]))
             break
+    # ---- the same objects handed to a model over a later window ------------------------------
+    # (one weather table, one soil, one crop ... used for several periods): the objects must mean
+    # there what they meant before the first run, i.e. give what fresh objects give for that window
+    if case.get("later") and not acc.v:
+        import copy
+        import datetime as dt
+        from aquacrop import AquaCropModel
+
+        sp2 = copy.deepcopy(spec)
+        k = int(case["later"])
+        sp2["start"] = S.ds(gen.add_years(S.d(spec["start"]), k))
+        sp2["end"] = S.ds(gen.add_years(S.d(spec["end"]), k))
+        ref = sim.run(sp2, opts=dict(ledger=False, irr=False))
+        cov["executions"] += 2
+        if ref.status == "ok":
+            kw2 = dict(kw)
+            kw2["sim_start_time"], kw2["sim_end_time"] = ref.kw["sim_start_time"], ref.kw["sim_end_time"]
+            try:
+                m2 = AquaCropModel(**kw2)
+                with np.errstate(all="ignore"):
+                    m2.run_model(till_termination=True)
+                r = sim.RunResult()
+                out = m2._outputs
+                r.tables = tuple(np.asarray(getattr(x, "values", x), dtype=float)
+                                 for x in (out.water_flux, out.water_storage, out.crop_growth))
+                r.summary = out.final_stats
+                cov["later_window_models"] += 1
+                if sim.tables_digest(r) != sim.tables_digest(ref):
+                    where = ""
+                    for name, a, b in zip(("water_flux", "water_storage", "crop_growth"), ref.tables, r.tables):
+                        if a.shape != b.shape:
+                            where = f"{name} shape {a.shape} vs {b.shape}"
+                            break
+                        bad = np.argwhere(~((a == b) | (np.isnan(a) & np.isnan(b))))
+                        if len(bad):
+                            where = f"{name}[{int(bad[0][0])},{int(bad[0][1])}] {a[tuple(bad[0])]!r} (fresh objects) vs {b[tuple(bad[0])]!r}"
+                            break
+                    after = {kk: snap(kw[kk]) for kk in USER_KEYS if kk in kw}
+                    acc.add("used-objects-differ-from-fresh", f"a model over the window {sp2['start']}..{sp2['end']} built from the objects "
+                            f"of the first run differs from the same model built from fresh objects ({where or 'summary'}); "
+                            f"user-object fields changed by the first run: {diff(before, after)[:8]}",
+                            dict(where=where, changed=diff(before, after)[:20]),
+                            dict(co2_option=("constant_auto" if (spec.get("co2") or {}).get("constant_auto") else "other")))
+            except Exception as ex:  # noqa: BLE001
+                info = sim.exc_info(ex)
+                acc.add("later-run-raises", f"a model over the window {sp2['start']}..{sp2['end']} built from the objects of the "
+                        f"first run raised {info[0]}: {info[1][:100]}", dict(exception=info[0], traceback=info[3][-700:]),
+                        dict(exception=info[0]), site=f"{info[2][0]}.{info[2][1]}")
     return base.finish(spec, first, acc, gens >= 2, instruments=("step",),
                        sample_extra={"generations": gens})
